@@ -1,6 +1,39 @@
 (** Property C13 — theorems only; proofs live in Proofs/. *)
 From Coq Require Import String List.
-From Zog Require Import Model.Val Model.Engine Spec.Sem Proofs.Refine.
+From Zog Require Import Model.Val Model.Engine Model.Coerce Spec.Sem Proofs.Refine Proofs.ModesP.
+
+(** Parse and Validate agree: for every schema without Preprocess and every fully populated,
+    correctly typed value [d], parsing the data form of [d] into a fresh destination and validating
+    [d] in place produce the same entries (issues and callback invocations with their relative
+    paths) and the same final value — from any incoming "already errored" state. *)
+Theorem C13_modes_agree : forall s d e0, populated s d ->
+  sem Parse s (DVal (to_data s d)) (fresh s d) e0 = sem Validate s (DVal VNil) d e0.
+Proof. exact modes_agree. Qed.
+Print Assumptions C13_modes_agree.
+
+(** the same for the executable engine the harness runs against the code *)
+Theorem C13_engine_modes_agree : forall s d, populated s d ->
+  run Parse s (DVal (to_data s d)) (fresh s d) = run Validate s (DVal VNil) d.
+Proof. exact engine_modes_agree. Qed.
+Print Assumptions C13_engine_modes_agree.
+
+(** the default coercers are the identity on a value that already has the node's type, which is the
+    [p_coerce] premise of [populated] for schemas built with the default coercers *)
+Theorem C13_default_coercers_are_identity_on_typed_values : forall o l,
+  (forall s, coerce_default o l KString (VStr s) = Some (DStr s))
+  /\ (forall b, coerce_default o l KBool (VBool b) = Some (DBool b))
+  /\ (forall z, coerce_default o l KInt (VInt z) = Some (DInt z))
+  /\ (forall z, coerce_default o l KInt64 (VInt z) = Some (DInt z))
+  /\ (forall z, in_int32 z = true -> coerce_default o l KInt32 (VInt z) = Some (DInt z))
+  /\ (forall f, coerce_default o l KFloat64 (VF64 f) = Some (DFloat f))
+  /\ (forall t, coerce_default o l KTime (VTime t) = Some (DTime t)).
+Proof. exact default_coercers_are_identity_on_typed_values. Qed.
+Print Assumptions C13_default_coercers_are_identity_on_typed_values.
+
+(** the premise is satisfiable by a non-trivial value *)
+Theorem C13_premise_is_satisfiable : populated ex_schema ex_value.
+Proof. exact populated_holds_somewhere. Qed.
+Print Assumptions C13_premise_is_satisfiable.
 
 (** The executable engine (flags, shared child context, mutable path stack, one issue log) computes
     exactly the context-free semantics, for every schema, mode, input and destination. *)
